@@ -108,8 +108,15 @@ def betaBinary2(therm : BinaryThermodynamics, x, T, Rcrit, matrix : MatrixParame
 
     beta = np.zeros(Rcrit.shape)
     D = np.atleast_2d(therm.getTracerDiffusivity(x[indices], T[indices], removeCache=removeCache))
-    Dfactor = (xEqBeta - xEqAlpha)**2 / (xEqAlpha*D[:,1]) + (xEqBeta - xEqAlpha)**2 / ((1 - xEqAlpha)*D[:,0])
-    beta[indices] = precipitate.nucleation.areaFactor * Rcrit[indices]**2 * (1/Dfactor) / matrix.volume.a**4
+    #If the equilibrium compositions are equal (or not available, then both are 0), the impingement rate is not defined (0/0)
+    #In this case, leave the impingement rate at 0, which gives no nucleation rate
+    xEqAlpha = xEqAlpha * np.ones(Rcrit[indices].shape)
+    xEqBeta = xEqBeta * np.ones(Rcrit[indices].shape)
+    defined = xEqBeta != xEqAlpha
+    Dfactor = (xEqBeta[defined] - xEqAlpha[defined])**2 / (xEqAlpha[defined]*D[defined,1]) + (xEqBeta[defined] - xEqAlpha[defined])**2 / ((1 - xEqAlpha[defined])*D[defined,0])
+    betaDefined = np.zeros(Rcrit[indices].shape)
+    betaDefined[defined] = precipitate.nucleation.areaFactor * Rcrit[indices][defined]**2 * (1/Dfactor) / matrix.volume.a**4
+    beta[indices] = betaDefined
     return np.squeeze(beta)
 
 def betaMulti(therm : MulticomponentThermodynamics, x, T, Rcrit,  matrix : MatrixParameters, precipitate : PrecipitateParameters, removeCache = False, searchDir = None):
